@@ -1,5 +1,6 @@
 import AFDriver.Wire
 import AFModel.Scrape
+import AFDriver.C11Ext
 
 /-! Driver for C11: decodes an abstract output tree / a list of runs, executes
 `AF.Scrape.scrape`, `layout`, `direct` (value type `Float`, order `<`), encodes rows.
@@ -242,7 +243,7 @@ def handle (j : Json) : Except String Json := do
   | "direct" =>
       let runs ← (← getArr j "runs").toList.mapM parseRun
       pure (Json.mkObj (jView (direct ltF runs)))
-  | s => throw s!"unknown C11 query {s}"
+  | _ => AF.Driver.C11Ext.handle j
 
 end AF.Driver.C11
 
